@@ -42,7 +42,7 @@ RELATED = {
     "C10": ["contracts.c08", "contracts.c12", "contracts.c13"],
     "C12": ["contracts.c13", "contracts.c17"],
     "C17": ["contracts.c12", "contracts.c03_bounded"],
-    "C18": ["contracts.c15"],
+    "C18": ["contracts.c15", "contracts.c01"],
 }
 
 _search_cache = {}
